@@ -227,7 +227,10 @@ pub fn eval_case(ops: &[Op], drv: Option<&mut Drv>, pools: &[Pool], rng: &mut Rn
                 4
             };
             plan_rounds.push((mode.to_string(), Some(t), how));
-            plan_rounds.push((mode.to_string(), None, 0));
+            // the clean dispatch after it: the same way, or another way of dispatching (what one
+            // entry point leaves behind when it unwinds must not disturb another)
+            let clean = if rng.chance(60) { mode } else { *rng.pick(&["par", "seq", "paronly"]) };
+            plan_rounds.push((clean.to_string(), None, 0));
         }
         if all_tags.len() >= 2 && rng.chance(50) {
             // two at once (from different groups of one stage when there is such a stage), at a
